@@ -167,11 +167,11 @@ def _gen_rejects(rng, seed, tier):
                 bad["restore_regime"] = True
             elif what == "fabric":
                 if m["phase"] == 0:
-                    bad["override"] = {"fabric": rng.choice([5, 6, 9, 255])}
+                    bad["override"] = {"fabric": rng.choice([5, 6, 9, 255, -1, -2, -6, -7])}
                 else:
-                    bad["override"] = {"fabric": rng.choice([0, 1, 2, 3, 4, 6, 77])}
+                    bad["override"] = {"fabric": rng.choice([0, 1, 2, 3, 4, 6, 77, -1, -5])}
             else:
-                bad["override"] = {"phase": rng.choice([2, 3, 9, 255])}
+                bad["override"] = {"phase": rng.choice([2, 3, 9, 255, -1, -2])}
             bad["expect"] = "reject"
             ops.append(bad)
             r = dict(op)
